@@ -4,7 +4,11 @@ From V Require Export Model.DSim.
 
 Inductive case :=
 | FaultCase (c : cfg) (fs : list fault) (cok sok agree pong ping : bool) (tr : list (N * ev))
-| TraceCase (c : cfg) (fs : list fault) (cok sok agree pong ping : bool) (tr : list (N * ev)).
+| TraceCase (c : cfg) (fs : list fault) (cok sok agree pong ping : bool) (tr : list (N * ev))
+(* a path MTU below the size of a flight: the flights span several datagrams, which the
+   discrete-event model (one datagram per flight) does not describe; one datagram is lost or
+   delayed and only the outcome is judged *)
+| SplitFlightCase (cok sok agree pong ping : bool).
     (* more faults than the property speaks about (the application's patience may be exhausted):
        only the trace is compared with the model, and the clauses that hold for every script *)
 
@@ -48,7 +52,10 @@ Definition ev_eqb (a b : ev) : bool :=
 Definition tev_eqb (a b : N * ev) : bool := (fst a =? fst b) && ev_eqb (snd a) (snd b).
 
 Definition model_trace (c : case) : list (N * ev) :=
-  match c with FaultCase cf fs _ _ _ _ _ _ | TraceCase cf fs _ _ _ _ _ _ => sim_trace cf fs end.
+  match c with
+  | FaultCase cf fs _ _ _ _ _ _ | TraceCase cf fs _ _ _ _ _ _ => sim_trace cf fs
+  | SplitFlightCase _ _ _ _ _ => []
+  end.
 
 Definition mismatch (c : case) : bool :=
   match c with
@@ -57,6 +64,7 @@ Definition mismatch (c : case) : bool :=
       let '(n, finished) := simulate cf fs in
       negb (finished && list_eqb tev_eqb (rev (trace n)) tr &&
             Bool.eqb cok (complete (cl n)) && Bool.eqb sok (complete (sv n)))
+  | SplitFlightCase _ _ _ _ _ => false
   end.
 
 (* index of the first event on which the traces differ (debugging aid) *)
@@ -85,6 +93,11 @@ Definition spec_code (c : case) : N :=
   | TraceCase cf fs cok sok agree pong ping tr =>
       if got_before_done false false tr then 6
       else if cok && sok && negb agree then 3
+      else 0
+  | SplitFlightCase cok sok agree pong ping =>
+      if negb (cok && sok) then 2
+      else if negb agree then 3
+      else if negb (pong && ping) then 4
       else 0
   end.
 
